@@ -275,6 +275,7 @@ func ruleEqFields(c *Ctx) {
 		c.R.Check(okT, "val.Equals", "types compared before payloads", fd.Pos(), "`if !types.Equals(x.Type, y.Type) { return false }`", "payloads are reinterpreted without first requiring equal types")
 	}
 	c.idxOK()
+	c.nameExact()
 }
 
 func stripCall(c *Ctx, e ast.Expr, name string) ast.Expr {
@@ -493,6 +494,95 @@ func ruleUn1(c *Ctx) {
 	c.R.Check(okKinds, "types.unify", "composite arm requires x.Kind == y.Kind", fd.Pos(), "unifyComposite is only reached for two composites of the same kind: an optional never unifies with its payload", "composite types of different kinds can reach component-wise unification")
 	rec := c.callsTo(fd.Body, "types.unify")
 	c.R.Check(len(rec) == 0, "types.unify", "no cross-kind recursion", fd.Pos(), "unify recurses only through unifyComposite", "unify calls itself directly (e.g. unwrapping one side): kinds are no longer matched pairwise")
+	c.un6(fd)
+}
+
+// un6: unify refuses a pair of composite nodes it has already seen ("recursive type"). If the in-process set is never
+// released (a visited set, not a path set) this is only right when no composite node can legitimately occur twice on the
+// pattern side — which holds because patterns are instantiated by applySubst, and applySubst returns a freshly constructed
+// node for every composite kind. Contradiction rule over the two cooperating sites: either unify releases its pairs on exit,
+// or every composite arm of applySubst returns a constructor call.
+func (c *Ctx) un6(unify *ast.FuncDecl) {
+	released := false
+	adds := 0
+	var setObj types.Object
+	for _, call := range c.calls(unify.Body) {
+		se, ok := call.Fun.(*ast.SelectorExpr)
+		if !ok || !strings.HasSuffix(typeStr(c.typeOf(se.X)), "util.PtrPtrSet") {
+			continue
+		}
+		switch se.Sel.Name {
+		case "Add":
+			adds++
+			setObj = c.objOf(se.X)
+		case "Remove", "Delete", "Del":
+			released = true
+		}
+	}
+	ast.Inspect(unify.Body, func(x ast.Node) bool {
+		if d, ok := x.(*ast.DeferStmt); ok {
+			ast.Inspect(d.Call, func(y ast.Node) bool {
+				if ce, ok := y.(*ast.CallExpr); ok {
+					if se, ok := ce.Fun.(*ast.SelectorExpr); ok && setObj != nil && c.objOf(se.X) == setObj && se.Sel.Name != "Add" && se.Sel.Name != "Contains" {
+						released = true
+					}
+				}
+				return true
+			})
+		}
+		return true
+	})
+	if adds == 0 {
+		c.R.OK("types.unify", "UN-6 no in-process set", unify.Pos(), "nothing to contradict")
+		return
+	}
+	if released {
+		c.R.OK("types.unify", "UN-6 in-process pairs are released on exit", unify.Pos(), "path set: shared sub-terms are not mistaken for recursion")
+		return
+	}
+	as := c.FuncDecl("types", "applySubst")
+	if as == nil {
+		c.R.Anchor("types.applySubst")
+		return
+	}
+	var sw *ast.SwitchStmt
+	inspectNoLit(as.Body, func(x ast.Node) bool {
+		if s, ok := x.(*ast.SwitchStmt); ok && sw == nil && s.Tag != nil && strings.HasSuffix(src(s.Tag), "Kind") {
+			sw = s
+		}
+		return true
+	})
+	if sw == nil {
+		c.R.Unk("types.applySubst", "UN-6 composite arms rebuild the node", as.Pos(), "no switch over Kind found")
+		return
+	}
+	param := c.objOf(as.Type.Params.List[0].Names[0])
+	ctor := map[string]string{"types.KList": "types.List", "types.KMap": "types.Map", "types.kTuple": "types.Tuple", "types.KObj": "types.Obj", "types.KFun": "types.Fun", "types.KMaybe": "types.Maybe"}
+	cases := c.switchCasesByConst(sw)
+	for _, k := range []string{"types.KList", "types.KMap", "types.kTuple", "types.KObj", "types.KFun", "types.KMaybe"} {
+		cc := cases[k]
+		if cc == nil {
+			c.R.Bad("types.applySubst", "UN-6 arm "+k+" rebuilds the node", sw.Pos(), "no arm for this composite kind")
+			continue
+		}
+		ok := true
+		nret := 0
+		for _, r := range returnsOf(&ast.BlockStmt{List: cc.Body}) {
+			nret++
+			if len(r.Results) != 1 {
+				ok = false
+				continue
+			}
+			ce, isCall := unparen(r.Results[0]).(*ast.CallExpr)
+			if !isCall || c.calleeName(ce) != ctor[k] {
+				ok = false
+			}
+			if id, isID := unparen(r.Results[0]).(*ast.Ident); isID && c.objOf(id) == param {
+				ok = false
+			}
+		}
+		c.R.Check(ok && nret > 0, "types.applySubst", "UN-6 arm "+k+" rebuilds the node", cc.Pos(), "returns "+ctor[k]+"(..): instantiated patterns share no composite node, so unify's never-released in-process set only fires on genuinely recursive types", "applySubst can return an existing composite node (copy-on-write / sharing) while unify never releases its in-process pairs: a pattern that mentions one type twice (list[a] -> list[a] -> ..) then meets the same pair of nodes twice and well-typed calls such as union(xs, xs) or xs == xs are rejected as 'recursive type'")
+	}
 }
 
 func (c *Ctx) localDefsIn(body ast.Node) map[types.Object]ast.Expr { return c.localDefs(body) }
@@ -1242,7 +1332,7 @@ func (c *Ctx) idxOK() {
 			return true
 		})
 	})
-	c.R.Check(n >= 4, "types", "ObjTy.Index reads found", token.NoPos, "the name->position table is read in Obj, GetField, ObjVal.Get/Put and Check", "fewer than 4 reads of ObjTy.Index found: the scan is not seeing the table")
+	c.R.Check(n >= 2, "types", "ObjTy.Index reads found", token.NoPos, "the name->position table is read in Obj, GetField, ObjVal.Get/Put and Check", "fewer than 2 reads of ObjTy.Index found: the scan is not seeing the table")
 }
 
 func andParts(e ast.Expr) []ast.Expr {
@@ -1251,4 +1341,87 @@ func andParts(e ast.Expr) []ast.Expr {
 		return append(andParts(b.X), andParts(b.Y)...)
 	}
 	return []ast.Expr{e}
+}
+
+// nameExact (part of EQ-FIELDS): "object fields are compared by name" rests on the three by-name accessors finding a field
+// exactly when the object type's name -> position table has that very name: each reads ObjTy.Index in comma-ok form with its
+// name parameter as the key, and reports success only under that `ok`.
+func (c *Ctx) nameExact() {
+	for _, a := range []struct{ sp, fn string }{{"types", "ObjTy.GetField"}, {"val", "ObjVal.Get"}, {"val", "ObjVal.Put"}} {
+		fd := c.FuncDecl(a.sp, a.fn)
+		name := a.sp + "." + a.fn
+		if fd == nil {
+			c.R.Anchor(name)
+			continue
+		}
+		var param types.Object
+		if fd.Type.Params != nil && len(fd.Type.Params.List) > 0 && len(fd.Type.Params.List[0].Names) > 0 {
+			param = c.objOf(fd.Type.Params.List[0].Names[0])
+		}
+		var okObj types.Object
+		reads := 0
+		ast.Inspect(fd.Body, func(x ast.Node) bool {
+			as, ok := x.(*ast.AssignStmt)
+			if !ok || len(as.Lhs) != 2 || len(as.Rhs) != 1 {
+				return true
+			}
+			ie, ok := unparen(as.Rhs[0]).(*ast.IndexExpr)
+			if !ok {
+				return true
+			}
+			se, ok := unparen(ie.X).(*ast.SelectorExpr)
+			if !ok || se.Sel.Name != "Index" || typeStr(c.typeOf(ie.X)) != "map[string]int" {
+				return true
+			}
+			if id, ok := unparen(ie.Index).(*ast.Ident); ok && c.objOf(id) == param && param != nil {
+				reads++
+				if okID, ok := as.Lhs[1].(*ast.Ident); ok {
+					okObj = c.objOf(okID)
+				}
+			}
+			return true
+		})
+		if reads != 1 || okObj == nil {
+			c.R.Bad(name, "field found exactly when the name is in the type's table", fd.Pos(), "%s does not look its name parameter up in ObjTy.Index in comma-ok form (found %d such reads): a lookup that is fuzzier than the table (case folding, prefixes, fall-backs) makes object types with different field names equal and unifiable", name, reads)
+			continue
+		}
+		g := c.buildCFG(fd.Body)
+		bad := ""
+		for _, r := range returnsOf(fd.Body) {
+			if len(r.Results) == 0 {
+				continue
+			}
+			last := unparen(r.Results[len(r.Results)-1])
+			if typeStr(c.typeOf(last)) != "bool" {
+				continue
+			}
+			if id, ok := last.(*ast.Ident); ok && c.objOf(id) == okObj {
+				continue
+			}
+			if v := c.constOf(last); v != nil && v.Kind() == constant.Bool {
+				if !constant.BoolVal(v) {
+					continue
+				}
+				under := false
+				for _, pc := range g.condsAt(r) {
+					for _, cj := range andParts(pc.e) {
+						if id, ok := unparen(cj).(*ast.Ident); ok && c.objOf(id) == okObj && pc.pos {
+							under = true
+						}
+						if u, ok := unparen(cj).(*ast.UnaryExpr); ok && u.Op == token.NOT && !pc.pos && len(andParts(pc.e)) == 1 {
+							if id, ok := unparen(u.X).(*ast.Ident); ok && c.objOf(id) == okObj {
+								under = true
+							}
+						}
+					}
+				}
+				if !under {
+					bad = "a success return at " + c.pos(r.Pos()) + " is not under the table lookup's ok"
+				}
+				continue
+			}
+			bad = "found-flag " + src(last) + " at " + c.pos(r.Pos()) + " is not the table lookup's ok"
+		}
+		c.R.Check(bad == "", name, "field found exactly when the name is in the type's table", fd.Pos(), "i, ok := Index[name]; success only under ok", bad+": fields can be 'found' under names the object type does not have")
+	}
 }
